@@ -1785,7 +1785,11 @@ impl Ctx {
                 if self.m[j].alive {
                     self.m[j].shadowed = true;
                 }
-                let fdc = self.m[j].fdc;
+                // the descriptor is the harness's own: what the newcomer inherits is the state of
+                // the kernel object itself, which another source over the same descriptor may have
+                // changed since actor j last touched it
+                let readable = seqhooks::fd_readable(self.pending_efd.as_ref().unwrap().as_raw_fd());
+                let fdc = if readable { self.m[j].fdc.max(1) } else { 0 };
                 self.insert(KindSpec::Fd { r: true, w: false, mode: 0 });
                 if let Some(a) = self.m.last_mut() {
                     a.fdc = fdc;
